@@ -2,6 +2,8 @@ package wsrpc
 
 import (
 	"fmt"
+	"os"
+	"strings"
 	"testing"
 	"time"
 )
@@ -12,10 +14,26 @@ func vSessionBatch(seed uint64, n, steps int, honest bool, class string) {
 		s := vNewSess(r.Fork())
 		time.Sleep(time.Millisecond)
 		k := 6 + s.r.Intn(steps)
+		// a history whose steps do not come to an end (an endpoint wedged on a lock, say) is reported with what was played so
+		// far and with the goroutines of the library which are parked, rather than by the deadline of the whole run
+		over := make(chan struct{})
+		go func(i int) {
+			select {
+			case <-over:
+			case <-time.After(45 * time.Second):
+				s.wmu.Lock()
+				desc := append([]string(nil), s.desc...)
+				s.wmu.Unlock()
+				vEmit(vCase{Class: class + "/wedged", Fail: "history-does-not-come-to-an-end/" + strings.Join(vParked(), ","), Sig: fmt.Sprintf("wedged/%d/%d", seed, i),
+					Info: map[string]interface{}{"history": desc, "outcome": "wedged", "parked": vParked(), "replay": fmt.Sprintf("VERIF_CHILD='%d %d %d %v %s' go test -run TestVerifSessionChild (history %d)", seed, n, steps, honest, class, i)}})
+				os.Exit(3)
+			}
+		}(i)
 		for j := 0; j < k; j++ {
 			s.step(honest)
 		}
 		s.emit(class, "")
+		close(over)
 	}
 }
 
